@@ -62,6 +62,10 @@ def alphabet():
         if not b.startswith('r'):
             for s in NPSCAL:
                 ops.append([b, {'np': s[0], 'v': s[1]}])
+        else:
+            # a NumPy double on the LEFT of the operator (np.float64(g) * reader): the scalar's own operator must hand over
+            # to the reader's reflected method
+            ops.append([b, {'np': 'f8', 'v': 1.5}])
     for c in COLS:
         ops.append(['cols', {'c': c[0], 'v': c[1]}])
     return ops
@@ -203,6 +207,10 @@ def run_shard(desc, ctx):
                 idx += 1
                 if idx % ns == sh:
                     run_case({'kind': 'program', 'backend': be, 'dtype': dt, 'program': prog, 'rows': 'std'}, ctx)
+    # long row-index arrays (> 1000 entries) that agree in their first and last entries, read one after the other through
+    # a reader and its relatives
+    if sh < 4:
+        run_case({'kind': 'big_index', 'backend': ['flat', 'cbin', 'array', 'npy'][sh], 'seed': [desc['seed'], sh]}, ctx)
     # column-heavy programs of depth 4: selection, scalar operator, two selections in a row (all forms)
     for x in colops:
         for mid in (['mul', 2], ['add', 0.5], ['neg', None]):
@@ -258,6 +266,24 @@ def eval_chain(x, prog):
     return x
 
 
+def left_np_scalar_out_of_domain(prog, dtype):
+    """np.float64(g) <op> reader: NumPy itself turns the scalar into a Python float before the reader's reflected method
+    sees it, so on single-precision samples the lazy result is float32 where eager NumPy gives float64. That is NumPy's
+    dispatch, not phylib's: not generated for float32 / float16 recordings (integer and float64 ones are unaffected)."""
+    x = np.ones((1, NC), dtype=np.dtype(dtype))
+    with np.errstate(all='ignore'):
+        for op, arg in prog:
+            if op.startswith('r') and isinstance(arg, dict) and 'np' in arg and x.dtype.kind == 'f' and x.dtype.itemsize < 8:
+                return True          # (the expression is in single precision at this point)
+            try:
+                x = apply_op(x, op, arg)
+            except Exception:
+                return False
+            if not isinstance(x, np.ndarray):
+                return False
+    return False
+
+
 def valid_cols(prog):
     """Column selections must stay inside the current width (the harness only builds valid ones); judged by applying
     them to a dummy row. An integer selection drops the channel axis: no further selection is valid after it."""
@@ -273,9 +299,48 @@ def valid_cols(prog):
     return True
 
 
+def _big_index(case, ctx):
+    from phylib.io.traces import get_ephys_reader
+    rng = np.random.default_rng(case['seed'])
+    n = 3000
+    A = L.unique_cells(n, 2, np.dtype('int32'))
+    d = scratch_dir('c02b_')
+    try:
+        be = case['backend']
+        if be == 'flat':
+            rd = get_ephys_reader(L.write_flat(d, A, [1200, 1800], ext='.bin'), sample_rate=100., dtype=A.dtype, n_channels=2)
+        elif be == 'cbin':
+            rd = get_ephys_reader(L.open_cbin(L.write_cbin(d, A, 100., 700), 2))
+        elif be == 'npy':
+            rd = get_ephys_reader(L.write_npy(d, A), sample_rate=100.)
+        else:
+            rd = get_ephys_reader(A.copy(), sample_rate=100.)
+        monitors.CURRENT.readers.register(rd, lambda A=A: A, allow_list=be != 'cbin', label=be)
+        if be == 'cbin':
+            return          # (index arrays are not supported by the compressed backend)
+        head, tail = np.array([0, 1, 2]), np.array([n - 3, n - 2, n - 1])
+        mids = [np.sort(rng.permutation(np.arange(3, n - 3))[:1200]) for _ in range(3)]
+        idxs = [np.r_[head, m, tail] for m in mids]
+        relatives = [('reader', rd, A), ('reader * 2', rd * 2, A * 2), ('reader[:, ::-1]', rd[:, ::-1], A[:, ::-1]), ('-reader', -rd, -A)]
+        for rep in range(2):
+            for j, ix in enumerate(idxs):
+                name, r_, E = relatives[(j + rep) % len(relatives)]
+                ctx.count(1, key=hkey('bigidx', be, j, rep), nontrivial=True, cell=(be, 'int32', 'big_index'))
+                rr = call(lambda: r_[ix])
+                if not rr.ok or same(rr.value, E[ix]):
+                    ctx.violation('value_mismatch' if rr.ok else 'index_raised', {'kind': 'big_index', 'backend': be, 'seed': case['seed'], 'read': [j, rep]},
+                                  '(%s)[index array of %d rows, read no. %d]: %s' % (name, len(ix), 3 * rep + j, rr.exc if not rr.ok else same(rr.value, E[ix])),
+                                  {'backend': be, 'big_index': True}, tb=rr.tb)
+                    return
+    finally:
+        shutil.rmtree(d, ignore_errors=True)
+
+
 def run_case(case, ctx):
     with np.errstate(all='ignore'):
-        if case['kind'] == 'program':
+        if case['kind'] == 'big_index':
+            _big_index(case, ctx)
+        elif case['kind'] == 'program':
             _program(case, ctx)
         else:
             _tree(case, ctx)
@@ -291,6 +356,9 @@ def _program(case, ctx):
     prog = case['program']
     if not valid_cols(prog):
         ctx.note('skipped_invalid_column_program')
+        return
+    if left_np_scalar_out_of_domain(prog, case['dtype']):
+        ctx.note('skipped_left_numpy_scalar_on_single_precision')
         return
     rd, A = readers().get(case['backend'], case['dtype'])
     refl, intdiv, cols_mid = prog_features(prog, case['dtype'])
@@ -320,6 +388,11 @@ def _program(case, ctx):
         ctx.violation('not_a_reader', case, 'expression evaluates to %s' % type(lazy.value).__name__, feats)
         return
     E = eager.value
+    # (a step may be computed in a coarser floating type than the final result: float32 pow, then + np.int64)
+    coarse_tol, x_ = ulp_tol(A), A
+    for op_, arg_ in prog:
+        x_ = apply_op(x_, op_, arg_)
+        coarse_tol = max(coarse_tol, ulp_tol(x_))
     for rows in _rows(case, case['backend'] != 'cbin'):
         ctx.count(1, key=hkey(pkey, repr(rows)), nontrivial=nontriv,
                   cell=(case['backend'], case['dtype'], 'depth%d' % min(len(prog), 4)))
@@ -330,7 +403,7 @@ def _program(case, ctx):
             ctx.violation('index_raised', sub, 'expr(reader)[%r] raised %r' % (rows, rr.exc),
                           dict(feats, exc=rr.exc_name), tb=rr.tb)
             continue
-        d = same(rr.value, exp, rtol=ulp_tol(exp))
+        d = same(rr.value, exp, rtol=max(ulp_tol(exp), coarse_tol))
         if d:
             ctx.violation('value_mismatch', sub, 'expr(reader)[%r] != expr(array)[%r]: %s' % (rows, rows, d), feats)
     if nontriv:
@@ -345,6 +418,7 @@ def _tree(case, ctx):
     feats = {'backend': case['backend'], 'tree': True}
     lazy = {-1: rd}
     eager = {-1: A}
+    tols = {-1: ulp_tol(A)}
     progs = {-1: []}
     children = {}
     alive = [-1]
@@ -353,7 +427,7 @@ def _tree(case, ctx):
         if parent not in lazy:
             continue
         prog = progs[parent] + [[op, arg]]
-        if not valid_cols(prog):
+        if not valid_cols(prog) or left_np_scalar_out_of_domain(prog, case['dtype']):
             continue
         e = call(apply_op, eager[parent], op, arg)
         if not e.ok:
@@ -366,6 +440,7 @@ def _tree(case, ctx):
                           tb=l_.tb)
             return
         lazy[j], eager[j], progs[j] = l_.value, e.value, prog
+        tols[j] = max(tols[parent], ulp_tol(e.value))          # coarsest floating precision met on the way to this node
         children.setdefault(parent, []).append(j)
         alive.append(j)
         if j % 3 == 1:
@@ -384,7 +459,7 @@ def _tree(case, ctx):
                 ctx.violation('index_raised', case, 'node %d raised %r after deriving node %d' % (k, rr.exc, j),
                               dict(feats, exc=rr.exc_name), tb=rr.tb)
                 return
-            d = same(rr.value, eager[k][rows], rtol=ulp_tol(eager[k]))
+            d = same(rr.value, eager[k][rows], rtol=tols[k])
             if d:
                 ctx.violation('interference', case,
                               'node %d (program %r) changed after deriving node %d (%r): %s' % (
